@@ -33,7 +33,8 @@ META = {
         " Round 8: the unused list is not emptied before a return; the chunker's text is flagged from PLSSParser's own list; section patterns starting inside a word ('bisect 14') are a known finding."
         ' Round 9: every chunk is handed to a ChunkParser; an empty section list (filtered unpacker result) is reported as a vanishing block.'
         ' Round 10: with `segment`, a text in which the Twp/Rge finder keeps nothing still comes out of segment() as a block (followed for every layout with an empty match list); unused text handed to a flag-making helper is followed.'
-        " Round 11: 'rewrites whitespace only' is decided on the parse tree of each substitution pattern; the clean-up function is found by what it does after a rename; named guard conditions are expanded before a finding is keyed."),
+        " Round 11: 'rewrites whitespace only' is decided on the parse tree of each substitution pattern; the clean-up function is found by what it does after a rename; named guard conditions are expanded before a finding is keyed."
+        ' Round 12: the known-finding key names the test, not the spelling of the block it measures.'),
     'families': ['SINK', 'ORDER', 'TBL', 'STRIPSET'],
 }
 
@@ -271,9 +272,16 @@ def _unused_flow(ctx):
             if is_unknown(val):
                 val = ctx.fold.get_attr('plss_parse', 'PLSSParser', 'MIN_REPORTABLE_UNUSED_LEN') \
                     if 'MIN_REPORTABLE_UNUSED_LEN' in txt else None
+        # the key names the test, not the spelling of the block it measures (`unused_bit`, `unused.text`, `bit[1]`)
+        loop_names = {x.id for x in ast.walk(loops[0].target) if isinstance(x, ast.Name)}
+        import re as _re
+        m_len = _re.search(r"len\(([^()]*)\)", txt)
+        txt_key = txt
+        if m_len and _re.match(r"[A-Za-z_]\w*", m_len.group(1)) and _re.match(r"[A-Za-z_]\w*", m_len.group(1)).group(0) in loop_names:
+            txt_key = txt.replace(m_len.group(0), 'len(unused_bit)')
         ctx.violation('SINK', f"examine_unused: flag only if `{txt}`",
                       f"unused blocks failing `{txt}` (threshold {val}) are dropped without a flag",
-                      key=f"SINK|examine_unused|guard|{txt}|{val}", where=common.loc(eu, calls[0]))
+                      key=f"SINK|examine_unused|guard|{txt_key}|{val}", where=common.loc(eu, calls[0]))
     fu = ctx.repo.func('PLSSParser.parse.flag_unused')
     t = [norm(s) for s in fu.node.body]
     ctx.shape('self.e_flags.append(flag)' in t and 'self.e_flag_lines.append((flag, unused_text))' in t
